@@ -10,7 +10,7 @@ EXTENDS API, Json, IOUtils
 Rec == ndJsonDeserialize(IOEnv.TRACE)
 
 VARIABLES tr, l
-tvars == << keys, issued, sigof, ser, out, tr, l >>
+tvars == << keys, issued, sigof, ser, fmt, out, tr, l >>
 TView == l                           \* the trace is linear: its position identifies the state
 
 SigLen == [s \in Sets |-> CASE s = 44 -> 2420 [] s = 65 -> 3309 [] s = 87 -> 4627]
@@ -31,10 +31,16 @@ TKeyGenRng ==  /\ IsEv("KeyGenRng") /\ NoPanic
                /\ KeyGenRng(Ev.set, Ev.draw, Ev.fault, Ev.pk, Ev.sk)
                /\ out'.ok = Ev.ok /\ out'.rnglog = Ev.rnglog
 TSign ==       /\ IsEv("Sign") /\ NoPanic
-               /\ Sign(Ev.sk, Ev.msg, Ev.ctx, Ev.ctxlen, Ev.mode, Ev.draw, Ev.fault, Ev.sig)
+               /\ Sign(Ev.sk, Ev.msg, Ev.ctx, Ev.ctxlen, Ev.mode, Ev.mp, Ev.draw, Ev.fault, Ev.sig)
                /\ out'.ok = Ev.ok /\ out'.rnglog = Ev.rnglog
 TVerify ==     /\ IsEv("Verify") /\ NoPanic
-               /\ Verify(Ev.pk, Ev.msg, Ev.ctx, Ev.ctxlen, Ev.mode, Ev.sig)
+               /\ Verify(Ev.pk, Ev.msg, Ev.ctx, Ev.ctxlen, Ev.mode, Ev.mp, Ev.sig)
+               /\ out'.res = Ev.res
+\* the internal interface (Algorithms 7, 8 on a given M'): same issuing function, no context rule, nothing drawn
+TSignInternal == /\ IsEv("SignInternal") /\ NoPanic
+               /\ SignInternal(Ev.sk, Ev.mp, Ev.draw, Ev.sig)
+TVerifyInternal == /\ IsEv("VerifyInternal") /\ NoPanic
+               /\ VerifyInternal(Ev.pk, Ev.mp, Ev.sig)
                /\ out'.res = Ev.res
 TSer ==        /\ IsEv("Ser") /\ NoPanic
                /\ Serialise(Ev.h, Ev.bytes)
@@ -60,7 +66,7 @@ TDrop ==       /\ IsEv("Drop") /\ NoPanic
 \* flipped component (or is a foreign key), so the ideal functionality rejects it.
 TFlipSweep ==  /\ IsEv("FlipSweep") /\ NoPanic
                /\ IsPk(Ev.pk)
-               /\ Verdict(Ev.pk, Ev.msg, Ev.ctx, Ev.ctxlen, Ev.mode, Ev.sig)
+               /\ Verdict(Ev.pk, Ev.ctxlen, Ev.mp, Ev.sig)
                /\ Ev.base_res = TRUE
                /\ Ev.nbits = 8 * (CASE Ev.field = "sig" -> SigLen[keys[Ev.pk].set]
                                     [] Ev.field = "pk"  -> PkLen[keys[Ev.pk].set]
@@ -68,27 +74,27 @@ TFlipSweep ==  /\ IsEv("FlipSweep") /\ NoPanic
                                     [] Ev.field = "ctx" -> Ev.ctxlen)
                /\ Ev.accepted = << >>
                /\ out' = [op |-> "FlipSweep"]
-               /\ UNCHANGED << keys, issued, sigof, ser >>
+               /\ UNCHANGED << keys, issued, sigof, ser, fmt >>
 \* C12: every bit of the 32-byte draw influences the output: all 256 single-bit variations of the
 \* draw give pairwise different outputs, different from the base output
 TDrawSweep ==  /\ IsEv("DrawSweep") /\ NoPanic
                /\ Ev.nbits = 256 /\ Ev.distinct_outputs = 257
                /\ out' = [op |-> "DrawSweep"]
-               /\ UNCHANGED << keys, issued, sigof, ser >>
+               /\ UNCHANGED << keys, issued, sigof, ser, fmt >>
 \* C12: the OS-RNG convenience functions draw fresh randomness on every call
 TFresh ==      /\ IsEv("Fresh") /\ NoPanic
                /\ Ev.calls >= 2 /\ Ev.distinct_outputs = Ev.calls
                /\ out' = [op |-> "Fresh"]
-               /\ UNCHANGED << keys, issued, sigof, ser >>
+               /\ UNCHANGED << keys, issued, sigof, ser, fmt >>
 
 \* a new, independent execution starts (several recorded runs are concatenated into one file)
 TReset ==      /\ IsEv("Reset")
-               /\ keys' = << >> /\ issued' = {} /\ sigof' = << >> /\ ser' = << >> /\ out' = [op |-> "init"]
+               /\ keys' = << >> /\ issued' = {} /\ sigof' = << >> /\ ser' = << >> /\ fmt' = << >> /\ out' = [op |-> "init"]
 
 \* a remark of the harness about how the following lines were selected (no call of the library)
-TNote ==       IsEv("Note") /\ UNCHANGED << keys, issued, sigof, ser, out >>
+TNote ==       IsEv("Note") /\ UNCHANGED << keys, issued, sigof, ser, fmt, out >>
 
-TNext == TReset \/ TNote \/ TKeyGenSeed \/ TKeyGenRng \/ TSign \/ TVerify \/ TSer \/ TDeser \/ TDerive \/ TClone \/ TDrop
+TNext == TReset \/ TNote \/ TKeyGenSeed \/ TKeyGenRng \/ TSign \/ TVerify \/ TSignInternal \/ TVerifyInternal \/ TSer \/ TDeser \/ TDerive \/ TClone \/ TDrop
          \/ TFlipSweep \/ TDrawSweep \/ TFresh
 TSpec == TInit /\ [][TNext]_tvars
 
